@@ -4,7 +4,7 @@ import python_minifier.ast_compat as ast
 from python_minifier.ast_annotation import get_parent, set_parent
 
 from python_minifier.rename.binding import Binding
-from python_minifier.rename.util import insert
+from python_minifier.rename.util import insert, insertion_cost
 from python_minifier.transforms.suite_transformer import NodeVisitor
 from python_minifier.util import is_constant_node
 
@@ -65,7 +65,7 @@ class HoistedBinding(Binding):
         return 1
 
     def additional_byte_cost(self):
-        return 2  # '=' + '\n'
+        return 1 + insertion_cost(self._local_namespace)  # '=' + the separator from the following statement
 
     def rename(self, new_name):
 
